@@ -102,3 +102,60 @@ Proof.
   - exact glue_U_unchecked_shr_internal.
 Qed.
 
+(* ==== round 2 (tools/mk_gluetie.py) ==== *)
+(* rotate_left/right, unbounded_shl/shr of buint/mod.rs and bint/mod.rs; unchecked_shl / unchecked_shr *)
+Lemma glue_U_rotate_left : forall w a k, Glue.U_rotate_left w a k = rotate_left w a k.
+Proof. glue_tac. Qed.
+Lemma glue_U_rotate_right : forall w a k, Glue.U_rotate_right w a k = rotate_right w a k.
+Proof. glue_tac. Qed.
+Lemma glue_U_unbounded_shl : forall w a k, Glue.U_unbounded_shl w a k = U_unbounded_shl w a k.
+Proof. glue_tac. Qed.
+Lemma glue_U_unbounded_shr : forall w a k, Glue.U_unbounded_shr w a k = U_unbounded_shr w a k.
+Proof. glue_tac. Qed.
+Lemma glue_I_rotate_left : forall w a k, Glue.I_rotate_left w a k = rotate_left w a k.
+Proof. glue_tac. Qed.
+Lemma glue_I_rotate_right : forall w a k, Glue.I_rotate_right w a k = rotate_right w a k.
+Proof. glue_tac. Qed.
+Lemma glue_I_unbounded_shl : forall w a k, Glue.I_unbounded_shl w a k = I_unbounded_shl w a k.
+Proof. glue_tac. Qed.
+Lemma glue_I_unbounded_shr : forall w a k, Glue.I_unbounded_shr w a k = I_unbounded_shr w a k.
+Proof. glue_tac. Qed.
+Lemma glue_U_unchecked_shl : forall w a k, Glue.U_unchecked_shl w a k = U_checked_shl w a k.
+Proof. glue_tac. Qed.
+Lemma glue_U_unchecked_shr : forall w a k, Glue.U_unchecked_shr w a k = U_checked_shr w a k.
+Proof. glue_tac. Qed.
+Lemma glue_I_unchecked_shl : forall w a k, Glue.I_unchecked_shl w a k = I_checked_shl w a k.
+Proof. glue_tac. Qed.
+Lemma glue_I_unchecked_shr : forall w a k, Glue.I_unchecked_shr w a k = I_checked_shr w a k.
+Proof. glue_tac. Qed.
+
+Definition glue_rotate_statement : Prop :=
+  (forall w a k, Glue.U_rotate_left w a k = rotate_left w a k) /\
+  (forall w a k, Glue.U_rotate_right w a k = rotate_right w a k) /\
+  (forall w a k, Glue.U_unbounded_shl w a k = U_unbounded_shl w a k) /\
+  (forall w a k, Glue.U_unbounded_shr w a k = U_unbounded_shr w a k) /\
+  (forall w a k, Glue.I_rotate_left w a k = rotate_left w a k) /\
+  (forall w a k, Glue.I_rotate_right w a k = rotate_right w a k) /\
+  (forall w a k, Glue.I_unbounded_shl w a k = I_unbounded_shl w a k) /\
+  (forall w a k, Glue.I_unbounded_shr w a k = I_unbounded_shr w a k) /\
+  (forall w a k, Glue.U_unchecked_shl w a k = U_checked_shl w a k) /\
+  (forall w a k, Glue.U_unchecked_shr w a k = U_checked_shr w a k) /\
+  (forall w a k, Glue.I_unchecked_shl w a k = I_checked_shl w a k) /\
+  (forall w a k, Glue.I_unchecked_shr w a k = I_checked_shr w a k).
+Theorem glue_rotate_matches_model : glue_rotate_statement.
+Proof.
+  unfold glue_rotate_statement. repeat apply conj.
+  - exact glue_U_rotate_left.
+  - exact glue_U_rotate_right.
+  - exact glue_U_unbounded_shl.
+  - exact glue_U_unbounded_shr.
+  - exact glue_I_rotate_left.
+  - exact glue_I_rotate_right.
+  - exact glue_I_unbounded_shl.
+  - exact glue_I_unbounded_shr.
+  - exact glue_U_unchecked_shl.
+  - exact glue_U_unchecked_shr.
+  - exact glue_I_unchecked_shl.
+  - exact glue_I_unchecked_shr.
+Qed.
+(* ==== end of round 2 ==== *)
